@@ -19,9 +19,9 @@ if $applies; then
      fi
   else suite=true; fi
   cp "$sd"/demo_test.go "$sub/zz_seed_demo_test.go"
-  if (cd $sub && go test -vet=off -count=1 -run 'Seed' . >/tmp/seed_demo_with.$name.log 2>&1); then demo_with=pass; else demo_with=fail; fi
+  if (cd $sub && go test -vet=off -count=1 -run "${DEMO_RUN:-Seed}" . >/tmp/seed_demo_with.$name.log 2>&1); then demo_with=pass; else demo_with=fail; fi
   git apply -R "$sd/patch.diff"
-  if (cd $sub && go test -vet=off -count=1 -run 'Seed' . >/tmp/seed_demo_without.$name.log 2>&1); then demo_without=pass; else demo_without=fail; fi
+  if (cd $sub && go test -vet=off -count=1 -run "${DEMO_RUN:-Seed}" . >/tmp/seed_demo_without.$name.log 2>&1); then demo_without=pass; else demo_without=fail; fi
 fi
 cd /; git -C /repo worktree remove --force $wt
 echo "{\"name\":\"$name\",\"applies\":$applies,\"suite_passes_with_change\":$suite,\"demo_with_change\":\"$demo_with\",\"demo_without_change\":\"$demo_without\"}"
